@@ -2,6 +2,7 @@ package model
 
 import (
 	"fmt"
+	"reflect"
 	"sort"
 	"strconv"
 	"strings"
@@ -562,7 +563,7 @@ func nickEq(a, b *state.Nick, ignoreChannels bool) bool {
 	if a.Nick != b.Nick || a.Ident != b.Ident || a.Host != b.Host || a.Name != b.Name {
 		return false
 	}
-	if (a.Modes == nil) != (b.Modes == nil) || (a.Modes != nil && *a.Modes != *b.Modes) {
+	if (a.Modes == nil) != (b.Modes == nil) || (a.Modes != nil && !reflect.DeepEqual(*a.Modes, *b.Modes)) {
 		return false
 	}
 	if ignoreChannels {
@@ -577,7 +578,7 @@ func privMapEq(a, b map[string]*state.ChanPrivs) bool {
 	}
 	for k, p := range a {
 		q, ok := b[k]
-		if !ok || (p == nil) != (q == nil) || (p != nil && *p != *q) {
+		if !ok || (p == nil) != (q == nil) || (p != nil && !reflect.DeepEqual(*p, *q)) {
 			return false
 		}
 	}
@@ -594,7 +595,7 @@ func chanEq(a, b *state.Channel, ignoreNicks bool) bool {
 	if a.Name != b.Name || a.Topic != b.Topic {
 		return false
 	}
-	if (a.Modes == nil) != (b.Modes == nil) || (a.Modes != nil && *a.Modes != *b.Modes) {
+	if (a.Modes == nil) != (b.Modes == nil) || (a.Modes != nil && !reflect.DeepEqual(*a.Modes, *b.Modes)) {
 		return false
 	}
 	if ignoreNicks {
